@@ -541,7 +541,10 @@ def run(ctx, scratch):
                        '(a permutation sorting -sizes) is checked by the size-order oracle',
                        'Dasgupta: no self-loop in the graphs on which the smallest-common-cluster spec is compared; volume of '
                        'a cluster = (out-volume + in-volume)/2, compared on undirected graphs only',
-                       'np.log trusted; tree sampling divergence bounds are checked at run time only']
+                       'np.log trusted; tree sampling divergence bounds are checked at run time only (no theorem: partial)',
+                       'AggregateGraph casts sum(data) to a C float: weights are small integers / dyadics so the cast is exact',
+                       'reorder_dendrogram (return_dendrogram=True on unsorted heights): the theorems take the validity of the '
+                       'reordered dendrogram as a hypothesis (C07 reorder_valid); the harness checks it on every such case']
 
 
 # ------------------------------------------------------------------------------------------------
